@@ -725,7 +725,7 @@ fn run_spec(env: &Env, spec: &Spec, order: &[u64], l: &mut Local, sink: &Sink) -
 fn lock_group(lock_class: &str) -> &str {
     if lock_class.starts_with("bisect") {
         "loan-boundary-search"
-    } else if lock_class.starts_with("total-") && lock_class != "total-1atto" {
+    } else if lock_class.starts_with("total-") && lock_class != "total-1atto" && lock_class != "total-fixpoint" {
         "total-minus-d"
     } else if lock_class.starts_with("fraction") {
         "fraction-of-total"
@@ -759,13 +759,23 @@ fn run_group(env: &Env, prog: Prog, tip: TipSpecifier, cp_name: &str, cp: Costin
     go(mk(vec![Lock { who: Payer::Faucet, amount: big_lock, contingent: false }, Lock { who: Payer::A, amount: dec!(5), contingent: false }], Decimal::ZERO, "two-vaults"), l);
     // 3. non-contingent + contingent
     go(mk(vec![Lock { who: Payer::Faucet, amount: big_lock, contingent: false }, Lock { who: Payer::B, amount: dec!(5), contingent: true }], Decimal::ZERO, "with-contingent"), l);
-    let Some(t) = ample.total else {
+    let Some(mut t) = ample.total else {
         l.info("ample-lock-did-not-commit(no boundary runs)");
         return;
     };
     if t.is_zero() {
         l.info("total-cost-zero(no boundary runs)");
         return;
+    }
+    // the cost can depend on the locked amount itself (the faucet's lock_fee is WASM code doing decimal
+    // arithmetic on it): iterate lock := reported total until it is a fixed point, so that the boundary
+    // patterns below sit exactly at the cost of the transaction that locks that amount
+    for _ in 0..4 {
+        let s = go(mk(one_lock(t), Decimal::ZERO, "total-fixpoint"), l);
+        match s.total {
+            Some(t2) if t2 != t && !t2.is_zero() => t = t2,
+            _ => break,
+        }
     }
     // 4. boundary
     let mut ds: Vec<(Decimal, String)> = vec![(atto(), "total-1atto".into())];
